@@ -359,12 +359,42 @@ pub fn sites(tier: Tier) -> Vec<Site> {
             })
     },
     {
+        // the same units in very long texts through an UNOPTIMISED build of the library (/verif/deepbin, one
+        // process per case): a recursion per unit that the optimiser turns into a loop is still a recursion in
+        // the builds users test with, and a stack overflow kills the process - which is the verdict
+        let units = ["^1", "^1a", "a^2", "^^", "^^3", "^v", "|", "^", "^9^^", "\u{e9}^4", "a", "\0"];
+        let counts: Vec<usize> = if tier == Tier::Thorough { vec![1 << 12, 1 << 16, 1 << 20, 1 << 22] } else { vec![1 << 12, 1 << 16, 1 << 20] };
+        let n = (units.len() * counts.len()) as u64;
+        Site::new("very-long-texts-unoptimised-build", n,
+            "12 units (colour codes, escaped carets, escape letters, a reserved character, a lone caret, a letter, NUL) repeated 2^12, 2^16, 2^20 (thorough: 2^22) times, each in a child process of an unoptimised build of the library: no panic, no abort, no hang; unescape(escape(s)) = s; strip = reference and idempotent",
+            move |i, acc| {
+                acc.eval();
+                let u = units[(i as usize) / counts.len()];
+                let c = counts[(i as usize) % counts.len()];
+                let hexu: String = u.bytes().map(|b| format!("{b:02x}")).collect();
+                let replay = json!({"site": "very-long-texts-unoptimised-build", "index": i});
+                match std::process::Command::new(deep_bin()).args(["text", hexu.as_str(), &c.to_string()]).output() {
+                    Err(e) => panic!("MACHINERY: cannot spawn the child: {e}"),
+                    Ok(o) => match o.status.code() {
+                        Some(0) => { acc.class("pure-string-laws-hold"); if o.stdout.starts_with(b"changed") { acc.nontrivial(); } },
+                        Some(1) => acc.violate(i, format!("C12|very-long-texts|{}", String::from_utf8_lossy(&o.stdout).lines().next().unwrap_or("failed")), format!("{u:?} x {c} in an unoptimised build: {}", String::from_utf8_lossy(&o.stdout)), replay),
+                        Some(2) => panic!("MACHINERY: the child refused its arguments"),
+                        other => acc.violate(i, "C12|very-long-texts|process-died".into(), format!("{u:?} x {c} in an unoptimised build: the process died ({other:?}, {:?}): {}", o.status, String::from_utf8_lossy(&o.stderr).chars().take(300).collect::<String>()), replay),
+                    },
+                }
+            })
+    },
+    {
         let corpus: Vec<(String, String)> = ["", "plain", "^1red^8", "a^^b", "^v|^a*", "path/to\\file?", "^Jあ^Lx", "^", "^9^9^9", "100% <ok>", "^hx^tq", "#tag:\"v\""].iter().map(|s| (format!("text {s:?}"), s.to_string())).collect();
         crate::crossthread::site("C12", "cross-thread-calls", "escape / unescape / strip", corpus, |s: &String| (escape(s).to_string(), unescape(s).to_string(), insim::core::string::colours::strip(s).to_string()))
     }]
 }
 
+/// The one-case runner built in the dev profile (see /verif/deepbin and ./check).
+fn deep_bin() -> String { std::env::var("VERIF_DEEP_BIN").unwrap_or_else(|_| "/verif/target/deep/debug/deep".into()) }
+
 pub fn run(tier: Tier, replay: Option<String>) -> i32 {
+    if !std::path::Path::new(&deep_bin()).exists() { eprintln!("MACHINERY: {} is missing (./check builds it)", deep_bin()); return 3; }
     super::run_e1("C12", tier, "exploration", replay, sites(tier),
         "all strings to a length bound over class alphabets; every string is distinct by construction; non-trivial = escaping or stripping changes it",
         vec![
